@@ -371,7 +371,9 @@ class ProxyLoop:
 
 
 class Rig:
-    def __init__(self):
+    def __init__(self, hold_server=False):
+        """``hold_server``: the HttpServer thread is held before it creates its IO loop (the
+        frontend's start-up window: server.io_loop is None) until release_server()."""
         import pykka
         from mopidy import ext
         from mopidy.http import Extension, handlers
@@ -399,14 +401,25 @@ class Rig:
                 lg.removeHandler(h)
         lg.addHandler(self.actor_log)
         lg.setLevel(logging.ERROR)
+        self.stopped = False
+        self.server_gate = None
+        if hold_server:
+            from mopidy.http import actor as actor_mod
+
+            self.server_gate = threading.Event()
+            gate, orig_run = self.server_gate, actor_mod.HttpServer.run
+
+            def held_run(srv):
+                gate.wait(30)
+                return orig_run(srv)
+
+            self._restore_run = (actor_mod.HttpServer, orig_run)
+            actor_mod.HttpServer.run = held_run
         self.ref = frontend_cls.start(config=self.config, core=self.core)
         self.server = self.ref.proxy().server.get()
-        t0 = time.time()
-        while self.server.io_loop is None:
-            if time.time() - t0 > 10:
-                raise RuntimeError("HttpServer did not start")
-            time.sleep(0.005)
-        self.real_loop = self.server.io_loop
+        self.real_loop = None
+        if not hold_server:
+            self.release_server()
         self.port = self.server.sockets[0].getsockname()[1]
         # client side: one asyncio loop in its own thread
         self.cloop = asyncio.new_event_loop()
@@ -414,7 +427,21 @@ class Rig:
         self.cthread.start()
         self.next_cid = 0
         atexit.register(self.stop)
-        self.stopped = False
+
+    def release_server(self):
+        """End of the start-up window: let the server thread create its loop and wait for it."""
+        if self.server_gate is not None:
+            self.server_gate.set()
+        t0 = time.time()
+        while self.server.io_loop is None:
+            if time.time() - t0 > 10:
+                raise RuntimeError("HttpServer did not start")
+            time.sleep(0.005)
+        self.real_loop = self.server.io_loop
+        if self.server_gate is not None:
+            cls, orig = self._restore_run
+            cls.run = orig
+            self.server_gate = None
 
     def _client_main(self):
         asyncio.set_event_loop(self.cloop)
@@ -425,7 +452,13 @@ class Rig:
             return
         self.stopped = True
         try:
-            self.server.io_loop = self.real_loop
+            if self.server_gate is not None:
+                self.release_server()
+        except Exception:  # noqa: BLE001
+            pass
+        try:
+            if self.real_loop is not None:
+                self.server.io_loop = self.real_loop
             self.pykka.ActorRegistry.stop_all(timeout=5)
         except Exception:  # noqa: BLE001
             pass
@@ -1901,6 +1934,186 @@ def racing_stage(chk, rig, n_cases):
 _SEARCH_RIG = [None]
 
 
+# ----------------------------------------------------------------------------
+# lifecycle scenarios: listeners and the frontend starting / stopping at different times
+
+
+def gen_lifecycle(rng):
+    return {"pre_listeners": rng.choice([0, 1, 1, 2]), "pre_events": rng.choice([0, 1, 2, 3]),
+            "window_events": rng.choice([0, 0, 0, 1, 2]), "clients": rng.randint(1, 3),
+            "events": rng.randint(1, 6), "late_listener": rng.random() < 0.4,
+            "stop_listener": rng.random() < 0.3, "late_client": rng.random() < 0.4}
+
+
+LIFECYCLE_CORPUS = [
+    {"pre_listeners": 1, "pre_events": 1, "window_events": 0, "clients": 1, "events": 2, "late_listener": False,
+     "stop_listener": False, "late_client": False},
+    {"pre_listeners": 0, "pre_events": 0, "window_events": 1, "clients": 1, "events": 1, "late_listener": False,
+     "stop_listener": False, "late_client": False},
+    {"pre_listeners": 2, "pre_events": 2, "window_events": 0, "clients": 2, "events": 3, "late_listener": True,
+     "stop_listener": True, "late_client": True},
+    {"pre_listeners": 0, "pre_events": 2, "window_events": 0, "clients": 2, "events": 2, "late_listener": True,
+     "stop_listener": False, "late_client": False},
+]
+
+
+def run_lifecycle(rng, scn):
+    """The real mopidy.listener.send with several CoreListener actors started and stopped at
+    different times around the HttpFrontend: other listeners running (and events emitted)
+    before the frontend exists, events in the frontend's start-up window (HttpServer.io_loop
+    still None), clients connecting afterwards, listeners joining / leaving later."""
+    import pykka
+    from mopidy.core import CoreListener
+
+    class OtherListener(pykka.ThreadingActor, CoreListener):
+        def __init__(self):
+            super().__init__()
+            self.got = []
+
+        def on_event(self, event, **kw):
+            self.got.append(event)
+
+    pykka.ActorRegistry.stop_all(timeout=5)
+    _SPECS.clear()
+    used, events, trace = set(), [], []
+    others = []
+
+    def emit(tag):
+        name, kw, content = make_event(rng, len(events), used)
+        events.append((name, kw, content))
+        trace.append([tag, len(events) - 1, name])
+        CoreListener.send(name, **kw)
+
+    for _ in range(scn["pre_listeners"]):
+        others.append(OtherListener.start())
+    trace.append(["listeners-started", len(others)])
+    for _ in range(scn["pre_events"]):
+        emit("event-before-frontend")
+    rig = Rig(hold_server=scn["window_events"] > 0)
+    trace.append(["frontend-started"])
+    died, escaped, clients = None, [], {}
+    try:
+        n_log = len(rig.actor_log.records)
+        for _ in range(scn["window_events"]):
+            emit("event-in-startup-window")
+        if scn["window_events"]:
+            try:
+                rig.barrier_actor()
+            except Exception as e:  # noqa: BLE001
+                if rig.ref.is_alive():
+                    raise
+                import re as _re
+                died = _re.sub(r" \(urn:uuid:[^)]*\)", "", "; ".join(rig.actor_log.records[n_log:]) or repr(e))
+            rig.release_server()
+            trace.append(["server-loop-running"])
+        connected_at = {}
+
+        def connect(cid):
+            c = Client(rig, cid)
+            c.connect()
+            clients[cid] = c
+            connected_at[cid] = len(events)
+            trace.append(["client-connected", cid])
+
+        for cid in range(scn["clients"]):
+            connect(cid)
+        for k in range(scn["events"]):
+            if k == 1 and scn["late_listener"]:
+                others.append(OtherListener.start())
+                trace.append(["listener-started-late"])
+            if k == 2 and scn["stop_listener"] and others:
+                others.pop(0).stop()
+                trace.append(["listener-stopped"])
+            if k == 1 and scn["late_client"]:
+                connect(scn["clients"])
+            emit("event")
+            if rig.ref.is_alive():
+                try:
+                    rig.barrier_actor()
+                except Exception as e:  # noqa: BLE001
+                    if rig.ref.is_alive():
+                        raise
+                    died = died or repr(e)
+            rig.on_loop(lambda: None)
+        for cid, c in clients.items():
+            if not c.sync("end"):
+                escaped.append(f"client {cid} did not answer the final sync")
+        logs = {}
+        for cid, c in clients.items():
+            dec = []
+            for raw in c.log:
+                try:
+                    content = canonical(json.loads(raw))
+                    dec.append(next((j for j, ev in enumerate(events) if ev[2] == content), -1))
+                except Exception:  # noqa: BLE001
+                    dec.append(-2)
+            logs[cid] = dec
+        alive = rig.ref.is_alive()
+        for c in clients.values():
+            try:
+                c.disconnect()
+            except Exception as e:  # noqa: BLE001
+                escaped.append(f"cleanup: {e!r}")
+    finally:
+        rig.stop()
+    return {"logs": logs, "connected_at": connected_at, "n_events": len(events), "trace": trace,
+            "frontend_alive": alive, "frontend_error": died, "escaped": escaped}
+
+
+def lifecycle_monitors(scn, obs):
+    bad = []
+    for e in obs["escaped"]:
+        bad.append(("T2_failure_contained", {"monitor": "T2_failure_contained", "mode": "lifecycle"}, e))
+    for c, log in obs["logs"].items():
+        must = list(range(obs["connected_at"][c], obs["n_events"]))
+        early = [i for i in log if 0 <= i < obs["connected_at"][c]]
+        if any(i < 0 for i in log) or len(set(log)) != len(log) or any(a >= b for a, b in zip(log, log[1:])):
+            bad.append(("T1_exactly_once_in_order", {"monitor": "T1_exactly_once_in_order", "mode": "lifecycle"},
+                        f"client {c}: duplicate, unknown or out-of-order delivery {log}"))
+        elif early:
+            bad.append(("T1_exactly_once_in_order", {"monitor": "T1_exactly_once_in_order", "mode": "lifecycle"},
+                        f"client {c} connected after event #{obs['connected_at'][c] - 1} but received the earlier events {early}"))
+        elif [i for i in log if i >= obs["connected_at"][c]] != must:
+            if not obs["frontend_alive"] and scn["window_events"] and "AssertionError" in (obs["frontend_error"] or ""):
+                # the unmodified HttpFrontend.on_event asserts server.io_loop: an event in the
+                # start-up window kills the frontend actor (known finding)
+                key = {"monitor": "T1_event_reaches_every_client", "mode": "lifecycle", "cause": "event-before-io-loop"}
+                what = (f"an event reached the frontend before its server thread had created the IO loop: "
+                        f"[{obs['frontend_error'][:200]}] the frontend actor stopped, so client {c} (connected later) "
+                        f"received {log} instead of {must}")
+            else:
+                key = {"monitor": "T1_event_reaches_every_client", "mode": "lifecycle",
+                       "cause": "frontend-dead" if not obs["frontend_alive"] else "frontend-not-notified"}
+                what = (f"client {c} is connected and healthy but received {log} of the events {must} emitted while it "
+                        f"was connected (frontend actor alive: {obs['frontend_alive']})")
+            bad.append(("T1_event_reaches_every_client", key, what))
+    return bad
+
+
+def lifecycle_stage(chk):
+    scns = list(LIFECYCLE_CORPUS) + [gen_lifecycle(chk.rng) for _ in range(12 if chk.tier == "quick" else 150)]
+    ok = True
+    for scn in scns:
+        try:
+            obs = run_lifecycle(chk.rng, scn)
+        except Exception as e:  # noqa: BLE001
+            ok = False
+            chk.corr_failure("lifecycle", {"scenario": scn}, f"scenario could not be run: {e!r}")
+            continue
+        chk.count(1, nontrivial_key=("lifecycle", json.dumps(scn, sort_keys=True), json.dumps(obs["trace"])))
+        chk.dist(f"lifecycle:listeners-before-frontend={scn['pre_listeners']}")
+        chk.dist(f"lifecycle:startup-window-events={'0' if not scn['window_events'] else '>0'}")
+        seen = set()
+        for mon, key, what in lifecycle_monitors(scn, obs):
+            k = json.dumps(key, sort_keys=True)
+            if k in seen:
+                continue
+            seen.add(k)
+            chk.monitor_failure(mon, key, what, {"scenario": scn, "trace": obs["trace"], "logs": obs["logs"],
+                                                 "connected_at": obs["connected_at"]})
+    chk.obligation("corr:lifecycle", "correspondence", ok)
+
+
 def search(cf):
     """Directed search after a broken tie: re-run the disagreeing schedule, its prefixes and
     random sub-schedules in settled mode, looking for a run on which a property monitor
@@ -2012,6 +2225,9 @@ def run(chk):
         if chk.replay and replay(chk, rig):
             return
         message_stage(chk)
+        rig.stop()
+        lifecycle_stage(chk)     # builds and stops its own frontends
+        rig = Rig()
         rigbox = [rig]
         try:
             settled_stage(chk, rigbox, 1000 if chk.tier == "quick" else 12000)
